@@ -49,6 +49,15 @@ def enum_check(text, collect_errors, M, case, accepted):
     if envs != want:
         M.violation("C14.enum", {"what": "rejected source: envelopes are not exactly one parseError per error (uri, location, message)",
                                  "got": short(envs, 300), "want": short(want, 300)}, case)
+    # the same source through a stream whose parser stops at the first error: exactly the first error
+    st2, envs2, _, _ = observe.enum_observed(text, uri="features/t.feature", stop=True)
+    M.count("enum_compared")
+    if st2 != "ok":
+        M.violation("C14.enum", {"what": "exception escaped GherkinEvents.enum (stop-at-first-error parser)", **envs2}, case,
+                    mechanism=observe.F1 if envs2.get("origin", "").startswith("token_scanner") else None)
+    elif envs2 != want[:1]:
+        M.violation("C14.enum", {"what": "stop-at-first-error stream does not yield exactly the first error of collecting mode",
+                                 "got": short(envs2, 300), "want": short(want[:1], 300)}, case)
 
 
 def check_noisy(L, text, M, case, pair_index=None, env=None):
